@@ -204,7 +204,7 @@ func ChunkToSave(c *Chunk, dst *save.Chunk) (err error) {
 }
 
 func writeStatesPalette(paletteData *PaletteContainer[BlocksState]) (palette []save.BlockState, data []uint64, err error) {
-	rawPalette := paletteData.palette.export()
+	rawPalette, data := paletteData.saveForm(4)
 	palette = make([]save.BlockState, len(rawPalette))
 
 	var buffer bytes.Buffer
@@ -222,14 +222,11 @@ func writeStatesPalette(paletteData *PaletteContainer[BlocksState]) (palette []s
 			return
 		}
 	}
-
-	data = make([]uint64, len(paletteData.data.Raw()))
-	copy(data, paletteData.data.Raw())
 	return
 }
 
 func writeBiomesPalette(paletteData *PaletteContainer[BiomesState]) (palette []save.BiomeState, data []uint64, err error) {
-	rawPalette := paletteData.palette.export()
+	rawPalette, data := paletteData.saveForm(0)
 	palette = make([]save.BiomeState, len(rawPalette))
 
 	var biomeID []byte
@@ -240,9 +237,6 @@ func writeBiomesPalette(paletteData *PaletteContainer[BiomesState]) (palette []s
 		}
 		palette[i] = save.BiomeState(biomeID)
 	}
-
-	data = make([]uint64, len(paletteData.data.Raw()))
-	copy(data, paletteData.data.Raw())
 	return
 }
 
